@@ -10,6 +10,7 @@ otherwise, ':SS' only when the offset is not a whole number of minutes).
 import TzVerif.Model.DateTime
 import TzVerif.Spec.Text
 import TzVerif.Proofs.Text
+import TzVerif.Proofs.SrcEqFmt
 
 namespace TzVerif.C18
 open TzVerif.Model
@@ -43,5 +44,26 @@ example : Spec.readBack "2000-01-02T03:04:05.000000006+00:00".toList = none ∧
 /-- non-vacuity: an offset of more than 99 hours with seconds, negative year -/
 example : String.ofList (formatDateTime (-44) 3 15 12 0 60 1 (-360001)) = "-44-03-15T12:00:60.000000001-100:00:01" := by
   decide +kernel
+
+/-! ### The same about the source text
+`TzVerif.Src.format_date_time` is src/datetime/mod.rs `format_date_time` translated to Lean on every run
+(tools/rs2lean.py, DESIGN §13); `write!` appends to the formatter with the modelled `core::fmt` padding. -/
+
+theorem translated_source_is_the_model (y mo d h mi s ns off : Int) :
+    Src.format_date_time [] y mo d h mi s ns off = .ok (formatDateTime y mo d h mi s ns off) :=
+  Proofs.SrcEq.format_date_time_eq y mo d h mi s ns off
+
+/-- `read_back` about the translated formatter: what the source writes is read back to exactly the value -/
+theorem read_back_src (y mo d h mi s ns off : Int) (text : List Char)
+    (hy : i32Min ≤ y ∧ y ≤ i32Max) (hmo : 0 ≤ mo ∧ mo ≤ 99) (hd : 0 ≤ d ∧ d ≤ 99) (hh : 0 ≤ h ∧ h ≤ 99)
+    (hmi : 0 ≤ mi ∧ mi ≤ 99) (hs : 0 ≤ s ∧ s ≤ 99) (hns : 0 ≤ ns ∧ ns < 1000000000)
+    (hoff : i32Min < off ∧ off ≤ i32Max)
+    (hw : Src.format_date_time [] y mo d h mi s ns off = .ok text) :
+    Spec.readBack text =
+      some { year := y, month := mo, day := d, hour := h, minute := mi, second := s, nanoseconds := ns, offset := off } := by
+  rw [Proofs.SrcEq.format_date_time_eq] at hw
+  injection hw with hw
+  subst hw
+  exact read_back y mo d h mi s ns off hy hmo hd hh hmi hs hns hoff
 
 end TzVerif.C18
